@@ -15,6 +15,7 @@ import subprocess
 from concurrent.futures import ThreadPoolExecutor
 
 from .. import common as C
+from .. import memmodel as M
 from .. import asmtext as A
 from .. import tokenize as T
 from . import c02, c12
@@ -50,6 +51,8 @@ def run(tier, seed):
     chk = C.Check(PROP, tier, seed, "model_checking")
     rnd = random.Random(seed)
     vdir = C.ensure_build("rel")
+    # the image itself (core/Memory.cpp) against Image.tla: every property that reads the image rests on it
+    M.run_image(chk, tier, seed, random.Random(seed + 17), PROP)
     rd = chk.rundir
 
     sources = []
